@@ -111,6 +111,8 @@ def fingerprint(s):
 
 # ---------------------------------------------------------------------------------------------- Gallina encoding
 def e_str(s):
+    if not s:
+        return "(@nil N)"          # a shard in which every case has an empty text would leave the type open
     return "[" + ";".join(str(ord(c)) for c in s) + "]"
 
 
